@@ -32,7 +32,7 @@ ENGINES = {
                     [('fenv_api.cpp', ['-frounding-math', '-DAPI_PART=%d' % k], 'fenv_api_%d.o' % k) for k in range(10)],
         'link': ['-lm'],
         'configs': C.vector_configs,
-        'seeded_runs': {'quick': 60000, 'thorough': 3000000},
+        'seeded_runs': {'quick': 400000, 'thorough': 40000000},
         'gate_n': {'quick': 200, 'thorough': 5000},
         'required_probes': {
             'C10': ['env_checked_calls', 'call_under_directed_mode', 'lane_rotation_checked'],
@@ -152,8 +152,14 @@ def parse_lines(text):
     return recs
 
 
-def run_worker(binp, args, timeout):
-    env = dict(os.environ); env['ASAN_OPTIONS'] = env.get('ASAN_OPTIONS', 'detect_leaks=0:allow_user_segv_handler=1:exitcode=77:handle_segv=0:handle_sigbus=0:handle_sigfpe=0:halt_on_error=0:detect_stack_use_after_return=0')
+EXHAUSTIVE_CFGS = ('gxx-*-none-*', 'gxx-*-SSE2-*', 'gxx-*-SSE4_2-*', 'gxx-*-AVX2-*', 'gxx-*-AVX512F-*', 'gxx-*-full-*', 'clang-*-AVX2-*', 'clang-*-SSE3-*')
+
+
+def run_worker(binp, args, timeout, extra_env=None):
+    env = dict(os.environ); env.pop('VERIF_EXHAUSTIVE', None)
+    if extra_env:
+        env.update(extra_env)
+    env['ASAN_OPTIONS'] = env.get('ASAN_OPTIONS', 'detect_leaks=0:allow_user_segv_handler=1:exitcode=77:handle_segv=0:handle_sigbus=0:handle_sigfpe=0:halt_on_error=0:detect_stack_use_after_return=0')
     env['UBSAN_OPTIONS'] = env.get('UBSAN_OPTIONS', 'halt_on_error=0:print_stacktrace=0')
     try:
         p = subprocess.run([binp] + args, stdout=subprocess.PIPE, stderr=subprocess.PIPE, text=True, timeout=timeout, env=env, errors='replace')
@@ -421,7 +427,8 @@ def main():
         # ---- main batch: NCPU workers, strided
         base = ['--gen', '--prop', prop, '--tier', args.tier, '--seed', str(args.seed), '--count', str(nruns_cfg), '--stride', str(NCPU), '--samples', '2']
         with cf.ThreadPoolExecutor(max_workers=NCPU) as ex:
-            res = list(ex.map(lambda s: run_worker(binp, base + ['--start', str(s)], 7200), range(NCPU)))
+            xenv = {'VERIF_EXHAUSTIVE': '1'} if (args.tier == 'thorough' and engine == 'fenv' and prop == 'C11' and any(fnmatch.fnmatchcase(c['id'], p_) for p_ in EXHAUSTIVE_CFGS)) else None
+            res = list(ex.map(lambda s: run_worker(binp, base + ['--start', str(s)], 14400, xenv), range(NCPU)))
         cfg_v = {}
         for widx, (rc, out, err) in enumerate(res):
             recs = parse_lines(out)
